@@ -17,6 +17,22 @@ CHECKS = {
         "reference terminal and judged cell by cell; held on what was generated, nothing more.",
         note="Trusts VTerm's terminal model (unit-tested in tests/test_vterm.py; assumptions listed in the evidence) and PIL for building sources.",
     ),
+    "C02": dict(
+        level="exploration",
+        technique="runtime monitor: VTerm recovers the visible (upper, lower) half colours of every cell; three pixel oracles (identity arrays, uniform, PIL-resampled)",
+        text="Every generated block render is interpreted and each half-cell compared with the expected pixel (identity sources at render "
+        "resolution use the generator's own arrays; threshold semantics three-valued at the rounding point; kitty default-background "
+        "workaround required exactly where it matters).",
+        note="Trusts VTerm's SGR/half-block interpretation and PIL's convert/resize(BOX)/alpha_composite for the resampled tier.",
+    ),
+    "C05": dict(
+        level="exploration",
+        technique="runtime monitor: differential execution on two VTerms (padded output vs. inner render alone) + documentation-derived padding model",
+        text="All four padding surfaces (Padding.pad, Renderable.render, RenderIterator frames, format()) are driven with synthetic and real "
+        "inner renders; box size, alignment constraints, fill cells, untouched cells for empty fill, cursor, get_padded_size/to_exact/resolve "
+        "agreement are judged on every case, plus the complete small grid.",
+        note="Trusts VTerm and the padding model in vf/models/padding.py (CENTER odd cell: either side accepted).",
+    ),
 }
 
 NOT_APPLICABLE = {
